@@ -35,11 +35,15 @@ def build(notes, sigs, order=None):
     for (c, p, on, dur, v) in notes:
         msgs.append(pm(ON, c, on, note=p, vel=v))
         msgs.append(pm(OFF, c, on + dur, note=p))
+    # signature events sit on the sequence's channel when it has exactly one (so that the 'channel'
+    # perturbation is a uniform relabelling of the whole sequence), else on channel 0
+    chans = {n[0] for n in notes}
+    sch = next(iter(chans)) if len(chans) == 1 else 0
     for (kind, tick, val) in sigs:
         if kind == "ts":
-            msgs.append(pm(TIMESIG, 0, tick, num=val[0], den=val[1]))
+            msgs.append(pm(TIMESIG, sch, tick, num=val[0], den=val[1]))
         else:
-            msgs.append(pm(KEYSIG, 0, tick, key=val))
+            msgs.append(pm(KEYSIG, sch, tick, key=val))
     if order is not None:
         msgs = [msgs[i] for i in order]
     s = Sequence()
